@@ -78,6 +78,7 @@ func (pj *internalParsedJson) parseMessage(msg []byte, ndjson bool) (err error) 
 		go func() {
 			defer wg.Done()
 			if ok, done := pj.unifiedMachine(); !ok {
+				verifEvent(9, 0, 0)
 				err = errors.New("Bad parsing while executing stage 2")
 				// Keep consuming...
 				if !done {
